@@ -87,6 +87,31 @@ def t_or(a, b):
     return t_xor(t_xor(a, b), t_and(a, b))
 
 
+def t_subst(a, env):
+    """substitute constants for variables in an ANF term: env maps variable id -> 0 / 1"""
+    if a is TOP or not env:
+        return a
+    out = set()
+    for m in a:
+        m2 = set()
+        dead = False
+        for v in m:
+            if v in env:
+                if env[v] == 0:
+                    dead = True
+                    break
+            else:
+                m2.add(v)
+        if dead:
+            continue
+        fm = frozenset(m2)
+        if fm in out:
+            out.discard(fm)
+        else:
+            out.add(fm)
+    return frozenset(out)
+
+
 def t_is_const(a):
     if a is TOP:
         return None
